@@ -250,4 +250,67 @@ def unmarked (files : List IndexFile) : List IndexPack := files.flatMap (·.pack
 /-- "Only packs with identical blob types are allowed" (`IndexPack::blob_type`). -/
 def IndexPack.Homogeneous (p : IndexPack) : Prop := ∀ b ∈ p.blobs, b.tpe = p.blobType
 
+/-! ### `repair_index` (C08): `commands/repair/index.rs`
+
+* `lookupRemove`        — `self.packs.remove(&id)` on the `HashMap<PackId, u32>` of listed pack files.
+* `IndexFile.allPacks`  — `IndexFile::all_packs` (unmarked first, then marked, each with its flag).
+* `checkOne`            — body of the loop in `PackChecker::check_pack`: unknown / already seen pack → dropped; size
+                          mismatch or `read_all` → queued for a header read with the index's header size as hint;
+                          otherwise kept with its delete flag (`IndexFile::add`).
+* `repairFile`          — one iteration of the loop over index files in `repair_index`: a changed file is replaced by
+                          the new one (not saved when empty), an unchanged file stays.
+* `repairIndex`         — the whole command: afterwards the queued packs and all packs never listed are read with
+                          `PackHeader::from_file` (`readHeader id hint size`); readable ones are added UNMARKED
+                          (`indexer.add_with(pack, false)`) in a new index file, unreadable ones are left out. -/
+
+def lookupRemove (id : Nat) : List (Nat × Nat) → Option (Nat × List (Nat × Nat))
+  | [] => none
+  | (i, s) :: rest =>
+    if i = id then some (s, rest)
+    else match lookupRemove id rest with
+      | none => none
+      | some (s', rest') => some (s', (i, s) :: rest')
+
+def IndexFile.allPacks (f : IndexFile) : List (IndexPack × Bool) :=
+  f.packs.map (·, false) ++ f.packsToDelete.map (·, true)
+
+def IndexFile.add (f : IndexFile) (p : IndexPack) (delete : Bool) : IndexFile :=
+  if delete then { f with packsToDelete := f.packsToDelete ++ [p] } else { f with packs := f.packs ++ [p] }
+
+structure CheckAcc where
+  remaining : List (Nat × Nat)
+  toRead : List (Nat × Option Nat × Nat)
+  newIndex : IndexFile
+  changed : Bool
+
+def checkOne (readAll : Bool) (a : CheckAcc) (pd : IndexPack × Bool) : CheckAcc :=
+  match lookupRemove pd.1.id a.remaining with
+  | none => { a with changed := true }
+  | some (size, rest) =>
+    if pd.1.packSize ≠ size ∨ readAll = true then
+      { a with remaining := rest, changed := true
+               toRead := a.toRead ++ [(pd.1.id, some (Rustic.Pack.headerSize pd.1.blobs), size)] }
+    else { a with remaining := rest, newIndex := a.newIndex.add pd.1 pd.2 }
+
+structure RepairAcc where
+  remaining : List (Nat × Nat)
+  toRead : List (Nat × Option Nat × Nat)
+  out : List IndexFile
+
+def repairFile (readAll : Bool) (st : RepairAcc) (f : IndexFile) : RepairAcc :=
+  let r := f.allPacks.foldl (checkOne readAll)
+    { remaining := st.remaining, toRead := st.toRead, newIndex := { packs := [], packsToDelete := [] }, changed := false }
+  { remaining := r.remaining, toRead := r.toRead
+    out := if r.changed then
+             (if r.newIndex.packs.isEmpty && r.newIndex.packsToDelete.isEmpty then st.out else st.out ++ [r.newIndex])
+           else st.out ++ [f] }
+
+def repairIndex (readHeader : Nat → Option Nat → Nat → Option (List IndexBlob)) (store : List (Nat × Nat))
+    (files : List IndexFile) (readAll : Bool) : List IndexFile :=
+  let st := files.foldl (repairFile readAll) { remaining := store, toRead := [], out := [] }
+  let reads := st.toRead ++ st.remaining.map (fun e => (e.1, none, e.2))
+  let newPacks : List IndexPack := reads.filterMap fun r =>
+    (readHeader r.1 r.2.1 r.2.2).map fun bl => { id := r.1, blobs := bl, size := none }
+  st.out ++ (if newPacks.isEmpty then [] else [{ packs := newPacks, packsToDelete := [] }])
+
 end Rustic.Index
